@@ -3,6 +3,7 @@
 package codec
 
 import (
+	"hash/crc32"
 	"io"
 
 	"github.com/gotd/td/bin"
@@ -98,6 +99,11 @@ func VerifC16_roundtrip() {
 			return
 		}
 	}
+	// the bytes on the wire are the ones the transport specification prescribes (reference
+	// encoder written from the specification text, not from the code)
+	if !c16wire(which, frames[:], sink.data) {
+		return
+	}
 	r := &c16reader{data: sink.data, budget: 3}
 	verifrt.Assert(rc.ReadHeader(r) == nil, "C16.rt.readheader")
 	for i := range frames {
@@ -144,4 +150,64 @@ func VerifC16_errorcode() {
 		verifrt.Assert(pe.Code == -code, "C16.err.code")
 	}
 	verifrt.Reach("C16.err.end")
+}
+
+func c16le32(v int) []byte { return []byte{byte(v), byte(v >> 8), byte(v >> 16), byte(v >> 24)} }
+
+// c16wire compares the written stream with the specification (core.telegram.org/mtproto/
+// mtproto-transports): abridged = 0xef, then per frame len/4 in one byte if < 127, else 0x7f and
+// len/4 in 3 bytes LE; intermediate = 0xeeeeeeee, then 4-byte LE length; padded intermediate =
+// 0xdddddddd, then 4-byte LE length of payload plus 0..15 padding bytes; full = no tag, per frame
+// 4-byte length (payload+12), 4-byte sequence number from 0, payload, CRC32 of all before.
+func c16wire(which int, frames [][]byte, wire []byte) bool {
+	var want []byte
+	switch which {
+	case 0:
+		want = append(want, 0xef)
+		for _, f := range frames {
+			if w := len(f) / 4; w < 127 {
+				want = append(want, byte(w))
+			} else {
+				want = append(want, 0x7f, byte(w), byte(w>>8), byte(w>>16))
+			}
+			want = append(want, f...)
+		}
+	case 1:
+		want = append(want, 0xee, 0xee, 0xee, 0xee)
+		for _, f := range frames {
+			want = append(want, c16le32(len(f))...)
+			want = append(want, f...)
+		}
+	case 2:
+		// random padding: structural comparison
+		ok := len(wire) >= 4 && string(wire[:4]) == "\xdd\xdd\xdd\xdd"
+		pos := 4
+		for _, f := range frames {
+			if !ok || len(wire) < pos+4 {
+				ok = false
+				break
+			}
+			l := int(wire[pos]) | int(wire[pos+1])<<8 | int(wire[pos+2])<<16 | int(wire[pos+3])<<24
+			pos += 4
+			if l < len(f) || l-len(f) > 15 || len(wire) < pos+l || string(wire[pos:pos+len(f)]) != string(f) {
+				ok = false
+				break
+			}
+			pos += l
+		}
+		ok = ok && pos == len(wire)
+		verifrt.Assert(ok, "C16.rt.wire")
+		return ok
+	case 3:
+		for i, f := range frames {
+			start := len(want)
+			want = append(want, c16le32(len(f)+12)...)
+			want = append(want, c16le32(i)...)
+			want = append(want, f...)
+			want = append(want, c16le32(int(crc32.ChecksumIEEE(want[start:])))...)
+		}
+	}
+	ok := string(wire) == string(want)
+	verifrt.Assert(ok, "C16.rt.wire")
+	return ok
 }
